@@ -24,7 +24,7 @@ ENCODED = [queueing.watcher, queueing.worker, queueing._wait_for_depletion, queu
            queueing.get_version, aiotasks.Scheduler]
 META = {
     'technique': 'bounded symbolic execution of the real kopf code (CrossHair 0.0.110 + z3): exhaustive path exploration per obligation cell, counterexamples replayed concretely; plus direct z3 queries whose formulas are generated from the source AST of the real functions (vkopf/astsmt.py; the wait of an idle worker in queueing.worker), validated against the real code on concrete vectors on every run',
-    'bounds': 'one watch stream; 2 events per cell in the quick tier (uid patterns a,a / a,b; worker_limit None or 1; a BOOKMARK item '
+    'bounds': 'h_patched: 3 events of one object, the first processing ends with a PATCH whose echo is awaited (consistency timeout symbolic), arrivals pinned per cell; smt_worker_timeout (E4): the wait of an idle worker for every idle timeout >= 1, clock value and deadline. one watch stream; 2 events per cell in the quick tier (uid patterns a,a / a,b; worker_limit None or 1; a BOOKMARK item '
               'interleaved; 3 objects with worker_limit=1), 3 events per cell in the thorough tier (5 uid patterns x 2 limits); gaps between '
               'arrivals, processing durations, idle timeout (>= 1), exit timeout and the cancellation instant are unbounded symbolic '
               'integers (virtual seconds); ties between equal deadlines are symbolic booleans; a processor failure at a symbolic position.',
